@@ -12,12 +12,18 @@ Requests (whitespace separated words; rationals as `num/den`, non-finite cells a
   cert   <system(term = ford)> <data> <nG> <QMat g>…          -> `residual vector | path cells`
   simlin <system> <data>                                      -> exact zero of the affine stacked system, `singular`, or `nan`
 
+  pair   <N> <nModel> <nData>                                 -> `k:modelVariant:dataVariant …` (`-` = none) of the zip in Inlay.simulate
+  hist   <nP> q… <nInit> (q v)… <nOps> (a obj q v | c obj | s obj)…   -> per op `-` or the parameter overwrites `q=v,…`, joined by ` | `
+  termlog <nRows> logly… <nTok> (q s)… <nCurr> (q i)… <maxLead> <last> <n> T… K… <rows> <cols> cell…   (floats as their 64 bits)
+                                                              -> bits of the terminal cells (curr-major, then column) computed over Float
+  finding <QMat T> <QMat K>                                   -> `first-order path | stacked residual on it | exact stacked zero` on the finding's corpus input
+
   <system> = S <nE> <expr>… <nEndo> q… <first> <simLast> <term>
   <expr>   = c <rat> | v <qid> <shift> | n <expr> | + a b | - a b | * a b | / a b | ^ <nat> <expr>     (prefix)
   <term>   = data | ford <maxLead> <QMat T> <QMat K (n×1)> <nTok> (q s)… <nCurr> (q i)…
   <data>   = D <rows> <cols> cell…        <guess> = G none | G <n> val…
 -/
-import IrisVerif.Model.Stacked
+import IrisVerif.Model.StackedGlue
 import IrisVerif.Driver.Util
 
 open IrisVerif IrisVerif.Stacked IrisVerif.Driver
@@ -112,6 +118,37 @@ def showData (d : Data) : String :=
 def markSolve (un : List Nat) (f : Frame) (d : Data) : Data :=
   d.modify (fun q c => if ¬ un.contains q ∧ f.first ≤ c ∧ c ≤ f.simLast then some (some ((100 * f.first + c : Nat) : Rat)) else none)
 
+
+/-! ### Float instance of the terminator's linear operations (execution only; the theorems are over abstract `log`/`exp`) -/
+
+def fOps (n : Nat) : LinOps (Array (Array Float)) (Array Float) :=
+  { mulMM := fun a b => (Array.range n).map (fun i => (Array.range n).map (fun j =>
+      (List.range n).foldl (fun acc k => acc + (a.getD i #[]).getD k 0 * (b.getD k #[]).getD j 0) 0)),
+    mulMV := fun a v => (Array.range n).map (fun i =>
+      (List.range n).foldl (fun acc k => acc + (a.getD i #[]).getD k 0 * v.getD k 0) 0),
+    addV := fun a b => (Array.range n).map (fun i => a.getD i 0 + b.getD i 0),
+    one := (Array.range n).map (fun i => (Array.range n).map (fun j => if i = j then 1 else 0)),
+    zeroV := (Array.range n).map (fun _ => 0) }
+
+def floatP : P Float := do let b ← nat; pure (Float.ofBits (UInt64.ofNat b))
+
+def showOpt {α} (f : α → String) : Option α → String
+  | none => "-"
+  | some a => f a
+
+def hopP : P HOp := do
+  let w ← word
+  match w with
+  | "a" => do let i ← nat; let q ← nat; let v ← rat; pure (.assign i q v)
+  | "c" => do let i ← nat; pure (.copy i)
+  | "s" => do let i ← nat; pure (.simulate i)
+  | _ => failure
+
+def showObs (o : Option (List (Nat × Option Rat))) : String :=
+  match o with
+  | none => "-"
+  | some l => ",".intercalate (l.map (fun (q, v) => s!"{q}=" ++ showCell v))
+
 def run (p : P String) (ws : List String) : String :=
   match p ws with
   | some (s, []) => s
@@ -127,6 +164,37 @@ def stepP : P String := do
     let n ← nat; let endo ← rep n nat; let first ← nat; let simLast ← nat; let fb ← rat; let d ← dataP
     let spots := wrtSpots endo (columnsToRun first simLast)
     pure (" ".intercalate ((missingSpots spots d).map (fun (q, c) => s!"{q}:{c}")) ++ " | " ++ showData (catchMissing spots fb d))
+  | "pair" => do
+    let n ← nat; let nM ← nat; let nD ← nat
+    pure (" ".intercalate ((pairVariants n (List.range nM) (List.range nD)).map
+      (fun (k, m, d) => s!"{k}:" ++ showOpt toString m ++ ":" ++ showOpt toString d)))
+  | "hist" => do
+    let nP ← nat; let ps ← rep nP nat
+    let nI ← nat; let init ← rep nI (do let q ← nat; let v ← rat; pure (q, v))
+    let nO ← nat; let ops ← rep nO hopP
+    pure (" | ".intercalate ((runH ps [⟨init.reverse⟩] ops).map showObs))
+  | "termlog" => do
+    let nR ← nat; let logly ← rep nR nat
+    let nT ← nat; let toks ← rep nT (do let q ← nat; let s ← int; pure (q, s))
+    let nC ← nat; let curr ← rep nC (do let q ← nat; let i ← nat; pure (q, i))
+    let maxLead ← nat; let last ← nat; let n ← nat
+    let tf ← rep (n * n) floatP; let kf ← rep n floatP
+    let rows ← nat; let cols ← nat; let cells ← rep (rows * cols) floatP
+    let ca := cells.toArray; let ta := tf.toArray
+    let T : Array (Array Float) := (Array.range n).map (fun i => (Array.range n).map (fun j => ta.getD (i * n + j) 0))
+    let isLog : Nat → Bool := fun q => logly.getD q 0 == 1
+    let rd : Nat → Int → Float := fun q c =>
+      if 0 ≤ c ∧ q < rows ∧ c.toNat < cols then ca.getD (q * cols + c.toNat) (0.0 / 0.0) else 0.0 / 0.0
+    let xi0 := (termXiLog Float.log isLog (fun _ => true) rd toks last).toArray
+    let out := curr.flatMap (fun (q, i) => (List.range maxLead).map (fun k =>
+      let xk := terminalXi (fOps n) T kf.toArray xi0 (k + 1)
+      termCellLog Float.exp isLog q (fun j => xk.getD j 0) i))
+    pure (" ".intercalate (out.map (fun x => toString x.toBits.toNat)))
+  | "finding" => do
+    let T ← qmat; let K ← qmat
+    let sh : Option (List (Option Rat)) → String := fun o => match o with | some l => showCells l | none => "nan"
+    pure (sh (findingFordPath T K.toVec) ++ " | " ++ sh (findingFordResidual T K.toVec) ++ " | " ++
+      sh ((findingSys.solveAffine findingData).map (fun l => l.map some)))
   | "resid" => do
     let s ← system; let d ← dataP; let g ← guessP
     pure (showCells (s.evalFunc g d))
